@@ -288,6 +288,9 @@ func fatalHarness(format string, a ...interface{}) {
 
 // Explore enumerates every execution of body (every choice vector within the budgets).
 func (w *Worker) Explore(name string, opt ExploreOpts, body func(x *Exec)) {
+	if only := os.Getenv("VERIF_ONLY"); only != "" && only != name && w.Replay == nil {
+		return // development aid: one exploration only (never set by the registered commands)
+	}
 	if w.Replay != nil {
 		if w.Replay.Explore != name {
 			return
